@@ -60,6 +60,9 @@ pub open spec fn be32_val(s: Seq<u8>) -> int
 pub enum Poll<T> { Ready(T), Pending }
 pub struct Context { pub x: u8 }
 // A-core-05: `impl<T> From<T> for Option<T>` is Some
+// A-core-25: Option<&T>::copied / cloned of a Copy value
+pub assume_specification<'a, T: Copy>[ Option::<&'a T>::copied ](o: Option<&'a T>) -> (r: Option<T>)
+    ensures o matches Some(x) ==> r == Some(*x), o is None ==> r is None;
 // A-core-22: integer div_ceil (b != 0 is a panic condition, here a precondition)
 pub assume_specification[ u64::div_ceil ](a: u64, b: u64) -> (r: u64)
     requires b != 0, ensures r as int == (a as int + b as int - 1) / (b as int);
